@@ -107,4 +107,42 @@ def crc64Generic (T : Tables) (align : Nat) (bs : List UInt8) (init : BitVec 64)
   else
     ~~~ (bs.foldl (tblByte 64 T) c)
 
+/-! ### The size-optimised implementations (crc32_small.c / crc64_small.c, `HAVE_SMALL`) -/
+
+/-- `crc32_init` / `crc64_init`: the 256-entry table generated at run time is `genTable poly 1`;
+    `lzma_crc32`/`lzma_crc64` of those files: `crc = table[*buf++ ^ (crc & 0xFF)] ^ (crc >> 8)` over all bytes. -/
+def crcSmall {w : Nat} (poly : BitVec w) (bs : List UInt8) (init : BitVec w) : BitVec w :=
+  ~~~ (bs.foldl (tblByte w (genTable poly 1)) (~~~ init))
+
+/-! ### Constants of the carry-less-multiplication implementation (crc_clmul_consts_gen.c, crc_x86_clmul.h) -/
+
+/-- `x^k mod P` for `P = x^w + poly`, in the reflected representation (bit `i` is the coefficient of `x^(w-1-i)`):
+    start from the polynomial `1` and multiply by `x` (one shift-register step) `k` times. -/
+def xpowMod {w : Nat} (poly : BitVec w) (k : Nat) : BitVec w := stepN poly k (BitVec.twoPow w (w - 1))
+
+/-- `calc_clrem(p, bits)`: `r = p; for (i = 1; i < bits; ++i) r = (r >> 1) ^ (r & 1 ? p : 0);` = `x^(bits + 63) mod P`. -/
+def clrem (p : BitVec 64) (bits : Nat) : BitVec 64 := stepN p (bits - 1) p
+
+/-- Loop of `calc_cldiv`: `q |= (r & 1) << i; r = (r >> 1) ^ (r & 1 ? p : 0);` for `i = i0 … i0+n-1`. -/
+def cldivLoop (p : BitVec 64) : Nat → Nat → BitVec 64 × BitVec 64 → BitVec 64 × BitVec 64
+  | 0, _, qr => qr
+  | n + 1, i, (q, r) => cldivLoop p n (i + 1) (q ||| ((r &&& 1#64) <<< i), step1 p r)
+
+/-- `calc_cldiv(p)` = `floor(x^128 / P)` by polynomial long division (the top quotient bit is implied). -/
+def cldiv (p : BitVec 64) : BitVec 64 := (cldivLoop p 64 0 (0#64, p)).1
+
+/-- The six 64-bit constants in the order the code writes them:
+    `fold512 = _mm_set_epi64x(clrem(4*128-64), clrem(4*128))`, `fold128 = (clrem(128-64), clrem(128))`,
+    `mu_p = ((cldiv << 1) | 1, p << 1)`. -/
+def clmulConsts (p : BitVec 64) : List Nat :=
+  [(clrem p (4 * 128 - 64)).toNat, (clrem p (4 * 128)).toNat, (clrem p (128 - 64)).toNat, (clrem p 128).toNat,
+   ((cldiv p <<< 1) ||| 1#64).toNat, (p <<< 1).toNat]
+
+/-- CRC32 "modulus-scaled to a CRC64": the 32-bit reflected polynomial in a 64-bit register (`P32(x)·x^32`). -/
+def P32in64 : BitVec 64 := 0xEDB88320#64
+
+/-- `vmasks[64]`: 16×0x00, 16×0xFF, 0…15, 16×0xFF. -/
+def vmasksSpec : List Nat :=
+  List.replicate 16 0 ++ List.replicate 16 255 ++ List.range 16 ++ List.replicate 16 255
+
 end XzVerif.Crc
